@@ -292,7 +292,7 @@ func ruleFlagAllowIn(c *Ctx, r *R) {
 	inherit := map[string]string{
 		"parseExpression":              "comma operands inherit (Expression / ExpressionNoIn)",
 		"parseAssignmentExpression":    "the right-hand side inherits (AssignmentExpression / AssignmentExpressionNoIn)",
-		"parseConditionalExpression":   "the branches inherit in this implementation",
+		"parseConditionalExpression#2": "the third operand inherits (ConditionalExpressionNoIn : ... ? AssignmentExpression : AssignmentExpressionNoIn); the second does not",
 		"parseVariableDeclaration":     "the initialiser inherits (Initialiser / InitialiserNoIn)",
 		"parseVariableDeclarationList": "each declaration inherits",
 	}
@@ -333,7 +333,11 @@ func ruleFlagAllowIn(c *Ctx, r *R) {
 				r.ok("unreached:"+key, site, "the enclosing function is not reachable from a parser entry point")
 				continue
 			}
-			if why, ok := inherit[caller.Name()]; ok && sym == stE {
+			why, ok := inherit[caller.Name()]
+			if !ok {
+				why, ok = inherit[fmt.Sprintf("%s#%d", caller.Name(), i+1)]
+			}
+			if ok && sym == stE {
 				r.ok("inherit:"+key, site, why)
 				continue
 			}
